@@ -5,8 +5,11 @@ import (
 	"fmt"
 	"os"
 	"path/filepath"
+	"runtime"
 	"sort"
 	"strings"
+	"sync/atomic"
+	"time"
 
 	"github.com/FollowTheProcess/spok/hash"
 	"github.com/FollowTheProcess/spok/simhook"
@@ -938,4 +941,154 @@ func (hashsched) Shrinks(cc any) []any {
 	}
 	// concrete unlink step instead of enumeration is handled by the worker after shrinking
 	return out
+}
+
+// ---------------------------------------------------------------- race side mode (real scheduler, not simulated)
+
+// hashReal runs Hash under the real Go scheduler (no yield hooks) with a
+// wall-clock watchdog; used only by the -race side mode, where a serialising
+// scheduler would hide data races from the detector.
+func (w *World) hashReal(files []string, faults []HFault) (digest string, err error, timedOut bool, leaked int) {
+	f := NoFaults()
+	f.OpenErr, f.ReadErr = map[string]string{}, map[string]string{}
+	for _, ft := range faults {
+		abs := filepath.Join(w.corpus(), filepath.FromSlash(ft.Path))
+		switch ft.Kind {
+		case "open":
+			f.OpenErr[abs] = ft.Errno
+		case "read":
+			f.ReadErr[abs] = ft.Errno
+		}
+	}
+	// the hook variables are installed once for the whole race run (installRaceHooks) and never
+	// written again: goroutines of an earlier call may still be finishing, and writing a hook
+	// variable then would be a data race of the harness, not of spok
+	raceFaults.Store(&f)
+	before := runtime.NumGoroutine()
+	done := make(chan struct{})
+	go func() {
+		defer close(done)
+		digest, err = hash.New().Hash(files)
+	}()
+	select {
+	case <-done:
+	case <-time.After(30 * time.Second):
+		return "", nil, true, 0
+	}
+	for i := 0; i < 200; i++ {
+		if runtime.NumGoroutine() <= before {
+			return digest, err, false, 0
+		}
+		time.Sleep(time.Duration(i+1) * 100 * time.Microsecond)
+	}
+	return digest, err, false, runtime.NumGoroutine() - before
+}
+
+var raceFaults atomic.Pointer[Faults]
+
+// installRaceHooks installs fault hooks that read the current plan through an atomic pointer.
+func installRaceHooks() {
+	simhook.OpenFn = func(f *os.File, err error, path string) (*os.File, error) {
+		if p := raceFaults.Load(); p != nil {
+			if name, ok := p.OpenErr[path]; ok {
+				if f != nil {
+					f.Close()
+				}
+				return nil, &os.PathError{Op: "open", Path: path, Err: errnoByName[name]}
+			}
+		}
+		return f, err
+	}
+	simhook.ReadErrFn = func(err error, path string) error {
+		if p := raceFaults.Load(); p != nil {
+			if name, ok := p.ReadErr[path]; ok {
+				return &os.PathError{Op: "read", Path: path, Err: errnoByName[name]}
+			}
+		}
+		return err
+	}
+}
+
+// RaceExec judges one hashsched case under the real scheduler at several
+// GOMAXPROCS values with reps repetitions each.
+func (hashsched) RaceExec(w *World, c *HashCase, prop string, reps int) *Result {
+	res := newResult()
+	if !hsConsistent(c.Disk) {
+		return res
+	}
+	list := c.List
+	if c.Big > 0 {
+		files := hsListedFiles(c)
+		list = nil
+		for i := 0; len(files) > 0 && i < c.Big; i++ {
+			list = append(list, files[i%len(files)])
+		}
+	}
+	kind := map[string]string{}
+	for _, e := range c.Disk {
+		kind[e.Path] = e.Kind
+	}
+	bad := 0
+	inList := map[string]bool{}
+	for _, p := range list {
+		inList[p] = true
+		if kind[p] == "" || kind[p] == "dangling" {
+			bad++
+		}
+	}
+	var faults []HFault
+	for _, f := range c.Faults {
+		if (f.Kind == "open" || f.Kind == "read") && inList[f.Path] && kind[f.Path] == "file" {
+			faults = append(faults, f)
+			bad++
+		}
+	}
+	w.hsMaterialise(c.Disk)
+	abs := w.hsAbs(list)
+	old := runtime.GOMAXPROCS(0)
+	defer runtime.GOMAXPROCS(old)
+	digests := map[string]bool{}
+	for _, gmp := range []int{1, 2, 4, 16} {
+		runtime.GOMAXPROCS(gmp)
+		for r := 0; r < reps; r++ {
+			files := abs
+			if r%2 == 1 && len(c.Variants) > 0 {
+				v := c.Variants[(r/2)%len(c.Variants)]
+				if len(v.Order) == len(abs) {
+					files = nil
+					for _, i := range v.Order {
+						if i >= 0 && i < len(abs) {
+							files = append(files, abs[i])
+						}
+					}
+				}
+			}
+			d, err, timedOut, leaked := w.hashReal(files, faults)
+			res.Ops++
+			sig := fmt.Sprintf("race-mode:gomaxprocs=%d", gmp)
+			switch {
+			case timedOut:
+				res.violate("C18", "no-deadlock", sig, "real scheduler, GOMAXPROCS=%d: Hash of %d entries did not return within 30 s", gmp, len(files))
+				return res
+			case leaked > 0:
+				res.violate("C18", "no-leak", sig, "real scheduler, GOMAXPROCS=%d: %d goroutines still alive 2 s after Hash of %d entries returned", gmp, leaked, len(files))
+				return res
+			case bad > 0 && err == nil:
+				res.violate("C18", "unreadable-implies-error", sig, "real scheduler, GOMAXPROCS=%d: an entry cannot be opened or read, yet Hash returned digest %.12s", gmp, d)
+				return res
+			case bad == 0 && err != nil:
+				res.violate("C18", "readable-implies-digest", sig, "real scheduler, GOMAXPROCS=%d: every entry is readable, yet Hash returned %v", gmp, err)
+				return res
+			}
+			if bad == 0 {
+				digests[d] = true
+			}
+		}
+	}
+	if len(digests) > 1 {
+		res.violate("C04", "same-files-same-digest", "race-mode", "real scheduler: the same file multiset hashed to %d different digests across GOMAXPROCS 1/2/4/16, permutations and %d repetitions", len(digests), reps)
+	}
+	res.distinct(fmt.Sprintf("shape:L%d:bad%d:faults%d", len(list), bad, len(faults)))
+	res.event("race-mode list=%d bad=%d digests=%d", len(list), bad, len(digests))
+	return res
 }
